@@ -40,7 +40,7 @@ type c12Case struct {
 // c12Cases is a pure function of (seed, tier) so that parent and children agree.
 func c12Cases(c *ev.Ctx) []c12Case {
 	var out []c12Case
-	n := c.N(48, 600)
+	n := c.N(48, 1500)
 	classes := []string{"tiles", "photo", "bands", "gradient", "noise", "pillarbox", "pal16", "checker", "pal256", "tiles", "bands"}
 	for i := 0; i < n; i++ {
 		r := rng(c, i)
